@@ -40,9 +40,8 @@ def decode_plain(data: bytes):
     return out
 
 
-def make_client(api_version=(1, 10), **kw):
-    loop = fh.loop()
-    client = APIClient("verif.local", 6053, None, **kw)
+def attach_session(client, api_version=(1, 10)):
+    """a fresh authenticated session for an existing client (the previous one, if any, is replaced)"""
     stops = []
     conn = APIConnection(client._params, lambda expected: stops.append(expected), common.debug_flip(), "verif")
     tr = fh.FakeTransport()
@@ -53,6 +52,13 @@ def make_client(api_version=(1, 10), **kw):
     conn._set_connection_state(CONNECTION_STATE_CONNECTED)
     conn.api_version = APIVersion(*api_version)
     client._connection = conn
+    return conn, tr
+
+
+def make_client(api_version=(1, 10), **kw):
+    loop = fh.loop()
+    client = APIClient("verif.local", 6053, None, **kw)
+    conn, tr = attach_session(client, api_version)
     return client, conn, tr, loop
 
 
